@@ -36,7 +36,7 @@ ASSUMPTIONS = [
   'pre-emption is modelled at synchronisation calls, source pulls and (line-level runs) source lines of prefetch_iterator.py; not between bytecodes',
   'after close() only order/uniqueness of delivered items and termination are asserted (the property says nothing about close)',
 ]
-PROBES = ['producer_done_before_ctor_returned', 'error_first_item', 'consumer_blocked', 'producer_blocked_full', 'close_while_producer_waiting', 'line_level_runs', 'ptd_runs', 'psu_padded', 'helpers_runs']
+PROBES = ['producer_done_before_ctor_returned', 'error_first_item', 'consumer_blocked', 'producer_blocked_full', 'close_while_producer_waiting', 'line_level_runs', 'ptd_runs', 'psu_padded', 'helpers_runs', 'source_reuses_buffer']
 
 _flax = None
 
@@ -90,6 +90,10 @@ def generate(rs, tier):
     batch_sizes=[g.randrange(1, 12) for _ in range(n)],
     stay_bias=g.choice([0.0, 0.5, 0.8]),
   )
+  if kind == 'prefetch_to_device' and g.random() < 0.35:
+    # the source refills ONE host buffer in place for every item (legal: the device transfer copies it)
+    knobs['reuse_buffer'] = True
+    knobs['batch_sizes'] = [knobs['batch_sizes'][0] if n else 1] * n
   ops = []
   k = g.randrange(0, n + 4)
   for _ in range(k):
@@ -149,6 +153,7 @@ class Source:
     self.items, self.fail_at, self.exc, self.sched, self.res = items, fail_at, exc, sched, res
     self.pos = 0
     self.pulls = 0
+    self.reuse = None
 
   def __iter__(self):
     return self
@@ -165,6 +170,9 @@ class Source:
       raise StopIteration
     x = self.items[self.pos]
     self.pos += 1
+    if self.reuse is not None:
+      np.copyto(self.reuse['x'], x['x'])
+      return self.reuse
     return x
 
 
@@ -279,6 +287,9 @@ def execute(plan):
       return None
 
   src = Source(items, k['fail_at'], exc, None if ptd else sc, res)
+  if k.get('reuse_buffer') and items:
+    src.reuse = {'x': np.zeros_like(items[0]['x'])}
+    res.probe('source_reuses_buffer')
   real_threading = pi_mod.threading
   real_ldc = jax.local_device_count
   obs = []
